@@ -221,8 +221,30 @@ def modeCountsUnnormalised (c : Nat) (ws : List Rat) (rows : List Row) : List Ra
 
 /-! ### the argument checks shared by the four `aggregate` methods -/
 
-inductive ArgError | emptyInput | weightsLength
+inductive ArgError | emptyInput | weightsLength | notArray | missingLoc | missingScale | keysDiffer | badMethod
 deriving Repr, DecidableEq
+
+/-- inputs that are not lists of arrays at all (the malformed stream of the harness) -/
+inductive Malformed
+  /-- an element of `y` is not an `ndarray` (e.g. a Python list) -/
+  | notArray
+  /-- `y = []` -/
+  | emptyList
+  /-- `MixedNormalAggregator`: the first member has no `"loc"` / no `"scale"` key, or the members' keys differ -/
+  | missingLoc | missingScale | keysDiffer
+  /-- `MixedCategoricalAggregator(uncertainty_method=…)` not in `{"confidence", "entropy"}` -/
+  | badMethod
+deriving Repr, DecidableEq
+
+/-- the explicit input validation of the four `aggregate` methods / constructors: which malformed input is
+refused with which error (`notArray` is a `TypeError`, the others `ValueError`) -/
+def validate : Malformed → ArgError
+  | .notArray => .notArray
+  | .emptyList => .emptyInput
+  | .missingLoc => .missingLoc
+  | .missingScale => .missingScale
+  | .keysDiffer => .keysDiffer
+  | .badMethod => .badMethod
 
 /-- `len(weights) != len(y)` → `ValueError`; empty `y` → `ValueError` (from `np.stack` / the
 explicit test).  `n` = number of members. -/
